@@ -39,13 +39,14 @@ __CPROVER_requires(1)
 #define KEEP_OLD 1
 #elif OP == 1
 /* add(const SVectorBase& vec), documented "Append nonzeros of sv" */
-__CPROVER_requires(REP_ALL(ROW_B))
+REQ_EACH(ROW_B)
 #ifdef AS_DOCUMENTED
 #define POST_SIZE (g_s0 + SNNZ(b, g_bsize))
 #define KEEP_OLD 1
 #else
 /* what the body does: clear() first, i.e. an ASSIGNMENT of the nonzeros of vec */
-__CPROVER_requires(-1 <= g_p && g_p < *bused && REP_ALL(P_BOCC) && v_g == (g_p < 0 ? 0 : VAL(b, g_p)))
+__CPROVER_requires(-1 <= g_p && g_p < *bused && v_g == (g_p < 0 ? 0 : VAL(b, g_p)))
+REQ_EACH(P_BOCC)
 #define POST_SIZE SNNZ(b, g_bsize)
 #define POST_MAX  (g_m0 < g_bsize ? g_bsize : g_m0)
 #define KEEP_OLD 0
@@ -53,8 +54,9 @@ __CPROVER_requires(-1 <= g_p && g_p < *bused && REP_ALL(P_BOCC) && v_g == (g_p <
 #endif
 #elif OP == 2
 /* *this = vec (sparse): the dense views agree at every index, exactly the nonzeros of vec are stored */
-__CPROVER_requires(REP_ALL(ROW_B))
-__CPROVER_requires(-1 <= g_p && g_p < *bused && REP_ALL(P_BOCC) && v_g == (g_p < 0 ? 0 : VAL(b, g_p)))
+REQ_EACH(ROW_B)
+__CPROVER_requires(-1 <= g_p && g_p < *bused && v_g == (g_p < 0 ? 0 : VAL(b, g_p)))
+REQ_EACH(P_BOCC)
 #define POST_SIZE SNNZ(b, g_bsize)
 #define POST_MAX  (g_m0 < g_bsize ? g_bsize : g_m0)
 #define KEEP_OLD 0
